@@ -17,12 +17,12 @@ TECHNIQUE = "numpy differential over all shapes <=3x3 / vectors <=4 with LINE-co
 RULE = ("shapes: vectors 1-4, matrices r x c with r,c in 1..3 (13 shapes). elementwise + - * /: all 169 shape pairs x element kinds "
         "(converter/constant/stock) + array-scalar and scalar-array forms + named vectors/matrices (matching and mismatching names); "
         "dot: all 169 shape pairs; aggregates sum prod mean median stddev rank size on every shape; nested two-operator forms; dot products whose operand is an arrayed expression, arrays combined with scalar dot products, aggregates over clamped flows / stocks with rates / re-assigned entries, matrices re-dimensioned after a first use; vector dot products of all 16 length pairs under 11 scalar wrappers (abs max min ** > If round neg + * sqrt); "
-        "arrayed stocks fed by arrayed expressions of time-varying members (two Euler steps); named stocks fed by named expressions / flows with another name order or other names; results read through element[i](t), element[i][j](t) and plot(return_df). value draws: 2 (quick) / 6 (thorough) incl. negatives. "
+        "second uses (literal members after an arrayed equation; member changes after a rejected mismatching equation in the same model); arrayed stocks fed by arrayed expressions of time-varying members (two Euler steps); named stocks fed by named expressions / flows with another name order or other names; results read through element[i](t), element[i][j](t) and plot(return_df). value draws: 2 (quick) / 6 (thorough) incl. negatives. "
         "distinct_nontrivial = distinct (form, shapes, kinds) combinations that were accepted and whose numpy result has at least two "
         "different entries (or is a scalar aggregate of >=2 different entries).")
 ASSUMPTIONS = ["arr_size is judged on vectors only (for a matrix the library documents 'number of rows', numpy .size is rows*cols: ambiguous)",
                "an exception anywhere between construction and evaluation is 'rejected', allowed by the property for supported and unsupported forms alike"]
-REQUIRED = {"named_stock_entries": 15, "arrayed_stock_entries_over_time": 30, "accepted_equal": 300, "rejected_mismatch": 100, "entries_compared": 2000}
+REQUIRED = {"second_use_entries": 20, "named_stock_entries": 15, "arrayed_stock_entries_over_time": 30, "accepted_equal": 300, "rejected_mismatch": 100, "entries_compared": 2000}
 BUDGET_S = {"quick": 100, "thorough": 1200}
 
 VEC = [(n,) for n in (1, 2, 3, 4)]
@@ -36,6 +36,8 @@ DOTEXPR = ["M.dot(A+B)", "M.dot((A+B)*2.0)", "(A+B).dot(C)", "A.dot(B+C)", "M.do
            # a matrix combined element-wise with a vector-valued dot product: numpy broadcasts (2,2) with (2,) along the last axis and rejects (2,3) with (2,)
            "W - M.dot(A)", "W + M.dot(A)", "W * M.dot(A)", "W / M.dot(A)", "X - M.dot(A)", "X + M.dot(A)", "X * M.dot(A)", "X / M.dot(A)", "M.dot(A) - X", "V - M.dot(A)", "X - X.dot(C3)"]
 STOCK_TV = ["M.dot(A+T)", "A.dot(N+TN)", "M.dot(N+TN)", "A+T", "A*T", "M.dot(A)", "(A-T)*2.0", "M.dot(2.0*T)", "N.dot(TN)", "A/(T+10.0)"]
+SECOND_USE = ["member-literal-after-equation", "setup_vector-after-equation", "setup_matrix-after-dot", "member-change-after-rejected-dot", "member-change-after-rejected-sum",
+              "member-literal-after-element-equation"]
 NAMED_STOCK = ["NB-NA", "flow:NB/NA", "NA+NB", "flow:NA*NB", "mismatch:flow", "mismatch:indexed", "same-order:NA-NA2"]
 WRAPPERS = ["abs", "max0", "min9", "pow2", "gt0", "if", "round", "neg", "plus", "times", "sqrtabs"]
 
@@ -121,6 +123,10 @@ def gen_cases(tier, seed):
         # named arrayed stocks fed by named expressions / flows whose names come in another order, or do not match
         for tmpl in NAMED_STOCK:
             cases.append(dict(form="named_stock", tmpl=tmpl, draw=d))
+        # second use of an arrayed element: the target of an arrayed equation is given literal members again; members change after a
+        # mismatching equation was rejected in the same model
+        for tmpl in SECOND_USE:
+            cases.append(dict(form="second_use", tmpl=tmpl, draw=d))
         for s1 in SHAPES:
             for agg in AGGS:
                 ranks = [-1, 1, 2, 99] if agg == "rank" else [None]
@@ -257,6 +263,80 @@ def run_stock_tv(case):
     return dict(verdict="held", nt="stock_tv:" + tmpl, counters=counters)
 
 
+def run_second_use(case):
+    """An arrayed element that is used a second time: literal members after it was the target of an arrayed equation; operand members
+    changed after a mismatching arrayed equation was rejected in the same model. Results must be numpy's for the CURRENT members."""
+    from BPTK_Py import Model
+    m = Model(starttime=0.0, stoptime=3.0, dt=1.0, name="arr2")
+    d = case["draw"]
+    A, B = values([2], d, 61), values([2], d, 62)
+    M, N = values([2, 2], d, 63), values([2, 2], d, 64)
+    a, b = make_el(m, "converter", "A", A), make_el(m, "converter", "B", B)
+    mm, nn = make_el(m, "converter", "M", M), make_el(m, "converter", "N", N)
+    tmpl = case["tmpl"]
+    counters = {}
+    try:
+        if tmpl in ("member-literal-after-equation", "setup_vector-after-equation", "member-literal-after-element-equation"):
+            R = m.converter("R")
+            R.equation = (a + b) if tmpl != "member-literal-after-element-equation" else a
+            first = read(R, (2,), 0.0)
+            if tmpl == "setup_vector-after-equation":
+                R.setup_vector(2, [1.5, -2.0])
+                cur = np.array([1.5, -2.0])
+            else:
+                R[1] = 7.25
+                cur = np.array([(A + B)[0] if tmpl != "member-literal-after-element-equation" else A[0], 7.25])
+            out = m.converter("out")
+            out.equation = R + b
+            tot = m.converter("tot")
+            tot.equation = R.arr_sum()
+            expected = np.concatenate([cur + B, [cur.sum()]])
+            got = np.concatenate([read(out, (2,), 0.0), [float(tot(0.0))]])
+        elif tmpl == "setup_matrix-after-dot":
+            P = m.converter("P")
+            P.equation = mm.dot(nn)
+            first = read(P, (2, 2), 0.0)
+            lit = [[1.0, 2.0], [3.0, 4.5]]
+            P.setup_matrix([2, 2], lit)
+            out = m.converter("out")
+            out.equation = P + mm
+            expected = (np.array(lit) + M).flatten()
+            got = read(out, (2, 2), 0.0).flatten()
+        else:
+            R = m.converter("R")
+            R.equation = a + b
+            D2 = m.converter("D2")
+            D2.equation = mm.dot(a)
+            tot = m.converter("tot")
+            tot.equation = a.arr_sum()
+            first = (read(R, (2,), 0.0), read(D2, (2,), 0.0), float(tot(0.0)))
+            X3 = make_el(m, "converter", "X3", values([2, 3], d, 65))
+            Z = m.converter("Z")
+            try:
+                if tmpl == "member-change-after-rejected-dot":
+                    Z.equation = X3.dot(a)             # (2,3).(2,): numpy rejects, the DSL must reject
+                else:
+                    Z.equation = X3 + mm               # (2,3) + (2,2)
+                return dict(verdict="violated", counters=counters, mech="mismatch-accepted", witness=dict(case=case))
+            except Exception:
+                counters["rejected_mismatch"] = 1
+            again = read(R, (2,), 0.0)
+            a[0] = 11.5
+            a[1] = -4.25
+            Anew = np.array([11.5, -4.25])
+            expected = np.concatenate([Anew + B, M.dot(Anew), [Anew.sum()]])
+            got = np.concatenate([read(R, (2,), 0.0), read(D2, (2,), 0.0), [float(tot(0.0))]])
+    except Exception as e:
+        counters["rejected_supported"] = 1
+        return dict(verdict="rejected", counters=counters, sample=dict(case=case, why="%s: %s" % (type(e).__name__, str(e)[:100])))
+    counters["entries_compared"] = int(expected.size)
+    counters["second_use_entries"] = int(expected.size)
+    if not np.allclose(got, expected, rtol=1e-9, atol=1e-12):
+        return dict(verdict="violated", counters=counters, mech="value:second_use", witness=dict(case=case, expected=expected.tolist(), got=got.tolist()))
+    counters["accepted_equal"] = 1
+    return dict(verdict="held", nt="second_use:" + tmpl, counters=counters)
+
+
 def run_named_stock(case):
     """A named arrayed stock fed by a named expression / flow: entries are paired BY NAME (whatever the order in which the operands
     declare their names); names that do not match are rejected."""
@@ -320,6 +400,8 @@ def run_case(case):
         return run_stock_tv(case)
     if case["form"] == "named_stock":
         return run_named_stock(case)
+    if case["form"] == "second_use":
+        return run_second_use(case)
     counters = {}
     before = len(_cov["lines"])
     m = Model(starttime=0.0, stoptime=3.0, dt=1.0, name="arr")
